@@ -1,2 +1,137 @@
--- C18 property theorems (to be written)
-import Nq.Basic
+/-
+  C18 — Helpers at trust boundaries act only on validated requests.
+
+  Models: `Nq.Clean` (qmail-clean.c main), `Nq.Spawn` (spawn.c getcmd/docmd/main loop with the
+  report() of qmail-lspawn.c / qmail-rspawn.c), `Nq.SendReport` (qmail-send.c del_dochan), tied to
+  the sources by the harnesses `harness/c18_clean.c`, `c18_spawn.c`, `c18_send.c` and the translator
+  `tools/extractors/c18.py` (report texts and tables).  The predicates `cleanOK`, `allowed`, `okPath`,
+  `sendOK` … of `Nq.Spec.TB` are the ones the driver evaluates on the real code's traces.
+  Only property theorems live here.
+-/
+import Nq.Lemmas.CleanL
+import Nq.Lemmas.SpawnL
+import Nq.Lemmas.SendL
+
+namespace Nq.Props.C18
+open Nq Nq.Spec.TB
+
+/-! ## qmail-clean -/
+section clean
+open Nq.Clean Nq.Lemmas.CleanL
+
+/-- **Exactly one status byte per request** — whatever the request and whatever `unlink` returns;
+it is the last thing the request causes. -/
+theorem C18_clean_one (line : Bytes) (plan : List Nat) :
+    (statuses (handleReq line plan).1).length = 1 ∧
+    ∃ s, (handleReq line plan).1.getLast? = some (.status s) := by
+  obtain ⟨qs, s, h1, _, _, _⟩ := handleReq_shape line plan
+  rw [h1, statuses_append, statuses_unlinks]
+  exact ⟨rfl, s, by simp⟩
+
+/-- **A rejected request changes nothing**: status `x` ⇒ no `unlink` at all. -/
+theorem C18_clean_reject (line : Bytes) (plan : List Nat)
+    (h : statuses (handleReq line plan).1 = [stX]) : paths (handleReq line plan).1 = [] := by
+  obtain ⟨qs, s, h1, _, h3, _⟩ := handleReq_shape line plan
+  rw [h1, statuses_append, statuses_unlinks] at h
+  have hs : s = stX := by simpa [statuses] using h
+  rw [h1, paths_append, paths_unlinks, h3 hs]; rfl
+
+/-- **Only the named files**: every path passed to `unlink` is one of the (at most two) paths the
+property allows for this request — `intd/N` and `mess/(N mod split)/N` for `foop/N`, `intd/N` and
+`todo/N` for `todo/N`, `N` the (unbounded) decimal value — never any other path. -/
+theorem C18_clean_only (line : Bytes) (plan : List Nat) :
+    ∀ p ∈ paths (handleReq line plan).1, p ∈ allowed line := by
+  obtain ⟨qs, s, h1, h2, _, _⟩ := handleReq_shape line plan
+  rw [h1, paths_append, paths_unlinks]
+  intro p hp
+  simp [paths] at hp
+  exact h2 p hp
+
+/-- **Characterisation of the requests that are acted upon**: if anything is unlinked then the
+request is `"foop/" ++ ds ++ [0]` or `"todo/" ++ ds ++ [0]` with `ds` a non-empty string of decimal
+digits, 7 ≤ length ≤ 100, whose value is below 2^64 (no wrap-around) and which is the canonical
+spelling of that value. -/
+theorem C18_clean_valid (line : Bytes) (plan : List Nat) (h : paths (handleReq line plan).1 ≠ []) :
+    ∃ ds, (line = FOOP ++ ds ++ [0] ∨ line = TODO ++ ds ++ [0]) ∧ ds ≠ [] ∧ ds.all isDigit = true ∧
+      7 ≤ line.length ∧ line.length ≤ 100 ∧ decVal ds < 2 ^ 64 ∧ fmtUlong (decVal ds) = ds := by
+  rcases handleReq_cases line plan with hx | ⟨ds, pfx, ps, ha, _, _⟩
+  · rw [hx] at h; simp [paths] at h
+  · refine ⟨ds, ?_, ha.nonempty, ha.digits, ha.len_lo, ha.len_hi, ha.nowrap, ha.canonical⟩
+    rcases ha.pfx_ok with hp | hp
+    · left; rw [← hp]; exact ha.shape
+    · right; rw [← hp]; exact ha.shape
+
+/-- **Complement — a well-formed request is honoured**: canonical digits below 2^64, total length
+at most 100, both `unlink`s succeeding (or ENOENT) ⇒ exactly the two files are removed, in order,
+and the answer is `+`. -/
+theorem C18_clean_accepts (ds : Bytes) (plan : List Nat) (hne : ds ≠ []) (hd : ds.all isDigit = true)
+    (hlen : ds.length ≤ 94) (hv : decVal ds < 2 ^ 64) (hc : fmtUlong (decVal ds) = ds)
+    (hplan : ∀ r ∈ plan.take 2, r = 0 ∨ r = 1) :
+    (handleReq (FOOP ++ ds ++ [0]) plan).1 =
+      [.unlink (fmtqfn INTD (decVal ds) false), .unlink (fmtqfn MESS (decVal ds) true), .status stOK] ∧
+    (handleReq (TODO ++ ds ++ [0]) plan).1 =
+      [.unlink (fmtqfn INTD (decVal ds) false), .unlink (fmtqfn TODO (decVal ds) false), .status stOK] := by
+  have hl : 0 < ds.length := List.length_pos_iff.mpr hne
+  have hscan : scanUlong ds = decVal ds := by rw [scanUlong_eq]; exact Nat.mod_eq_of_lt hv
+  have hp0 : plan.headD 0 = 0 ∨ plan.headD 0 = 1 := by
+    cases plan with
+    | nil => simp
+    | cons a t => exact hplan a (by simp)
+  have hp1 : plan.tail.headD 0 = 0 ∨ plan.tail.headD 0 = 1 := by
+    cases plan with
+    | nil => simp
+    | cons a t => cases t with
+      | nil => simp
+      | cons b t => exact hplan b (by simp)
+  have key : ∀ pfx : Bytes, pfx.length = 5 → ∀ ps, targets pfx (decVal ds) = some ps →
+      handleReq (pfx ++ ds ++ [0]) plan = unlinks ps plan := by
+    intro pfx hpl ps hps
+    have e1 : (pfx ++ ds ++ [0]).length = ds.length + 6 := by simp [hpl]; omega
+    have c1 : ¬ (pfx ++ ds ++ [0]).length < 7 := by omega
+    have c2 : ¬ (pfx ++ ds ++ [0]).length > 100 := by omega
+    have e2 : (pfx ++ ds ++ [0]).getLast? = some 0 := List.getLast?_concat
+    have e3 : ((pfx ++ ds ++ [0]).drop 5).dropLast = ds := by
+      rw [List.append_assoc, ← hpl, List.drop_left, List.dropLast_concat]
+    have e4 : (pfx ++ ds ++ [0]).take 5 = pfx := by
+      rw [List.append_assoc, ← hpl, List.take_left]
+    unfold handleReq
+    simp only [c1, c2, if_false, e2, e3, e4, hd, hscan, hc, hps, ne_eq, not_true_eq_false,
+      Bool.not_true, Bool.false_eq_true]
+  constructor
+  · rw [key FOOP rfl [fmtqfn INTD (decVal ds) false, fmtqfn MESS (decVal ds) true] (by simp [targets])]
+    simp only [unlinks, hp0, hp1, if_true]
+  · rw [key TODO rfl [fmtqfn INTD (decVal ds) false, fmtqfn TODO (decVal ds) false] (by simp [targets])]
+    simp only [unlinks, hp0, hp1, if_true]
+
+/-- **The whole input stream**: for every byte stream on the request descriptor and every behaviour
+of `unlink`, the program's event trace consists, request by request in order, of unlinks of files
+that request names followed by exactly one status byte (`x` only without unlinks), and nothing else
+but its periodic look at `pid/`.  (`cleanOK` is the oracle the driver runs on the real program.) -/
+theorem C18_clean_stream (input : Bytes) (plan : List Nat) :
+    cleanOK (splitReqs [] input) (run input plan) = true :=
+  cleanOK_runReqs _ _ _
+
+end clean
+
+/-! ### Non-vacuity for qmail-clean (bytes written out: "foop/12\0", "todo/7\0", …) -/
+section examples
+open Nq.Clean
+
+/-- "foop/12" NUL removes intd/12 and mess/12/12 (12 mod 23 = 12) and answers '+' -/
+example : (handleReq [102, 111, 111, 112, 47, 49, 50, 0] []).1 =
+    [.unlink [105, 110, 116, 100, 47, 49, 50], .unlink [109, 101, 115, 115, 47, 49, 50, 47, 49, 50], .status 43] := by decide
+/-- "foop/12x" NUL (the input that broke the unrepaired code) is answered 'x' once, nothing removed -/
+example : (handleReq [102, 111, 111, 112, 47, 49, 50, 120, 0] []).1 = [.status 120] := by decide
+/-- "todoX77" NUL (accepted by the unrepaired 4-byte comparison) is rejected -/
+example : (handleReq [116, 111, 100, 111, 88, 55, 55, 0] []).1 = [.status 120] := by decide
+/-- "foop/18446744073709551617" NUL (2^64 + 1: removed message 1 before the repair) is rejected -/
+example : (handleReq [102, 111, 111, 112, 47, 49, 56, 52, 52, 54, 55, 52, 52, 48, 55, 51, 55, 48, 57, 53, 53, 49, 54, 49, 55, 0] []).1
+    = [.status 120] := by decide
+/-- a failing unlink (EIO) answers '!' after the first attempt -/
+example : (handleReq [116, 111, 100, 111, 47, 55, 0] [2]).1 =
+    [.unlink [105, 110, 116, 100, 47, 55], .status 33] := by decide
+example : allowed [116, 111, 100, 111, 47, 55, 0] = [[105, 110, 116, 100, 47, 55], [116, 111, 100, 111, 47, 55]] := by decide
+
+end examples
+
+end Nq.Props.C18
